@@ -79,6 +79,12 @@ class Runner:
             qn.add(srt[g][:-1])           # proper prefix
             qn.add(srt[g] + "x")          # proper extension
             qn.add(srt[g].lower())
+            # present names with one character changed near the front (inside whatever prefix the entries may share)
+            qn.add("X" + srt[g][1:])
+            qn.add(srt[g][0].lower() + srt[g][1:])
+            if len(srt[g]) > 4:
+                qn.add(srt[g][:3] + "#" + srt[g][4:])
+            qn.add(srt[g][:2])
             # an absent name with the same djb2 hash as a present one: h(p + c1 c2) == h(p + (c1+1)(c2-33))
             nm = srt[g]
             if len(nm) >= 2 and ord(nm[-1]) - 33 >= 33:
@@ -349,6 +355,14 @@ def run(ctx):
                 z = rnd.sample(range(total), n)
                 regs.append(("shuffled", z))
             if n >= 2:
+                # a sorted registry of one region: all names share a prefix ('America/', 'Europe/', 'Etc/GMT', ...)
+                groups = {}
+                for i_, nm_ in enumerate(NAMES[db]):
+                    groups.setdefault(nm_.split("/")[0], []).append(i_)
+                big = sorted(g_ for g_ in groups.values() if len(g_) >= n)
+                if big:
+                    g_ = big[rnd.randrange(len(big))]
+                    regs.append(("one-region", sorted(rnd.sample(g_, n))))
                 # listed in ascending zone-id order (unsorted by name)
                 regs.append(("sorted-by-id", sorted(rnd.sample(range(total), n), key=lambda i_: IDS[db][i_])))
                 z = sorted(rnd.sample(range(total), n))
